@@ -387,7 +387,7 @@ example :
   stack-argument (SA) variable. -/
 theorem shuffle_regphase_correct (p : C06S.Params) (hy : C06S.Hyp p) (e : Emit) (M : State) (hw : C06S.WF p e M)
     (fuel : Nat) (e' : Emit) (h : shuffleLoop p.cfg p.n fuel e {} = .ok e') :
-    ∃ M', run p.vis p.f.saOffSp p.f.saOffSa (spId p.cfg.arch) p.M0 e'.out = some M' ∧
+    ∃ M', run p.vis p.f p.cfg.arch p.M0 e'.out = some M' ∧
       ∀ i, i < p.n → destOk M' i (.reg (groupOf (p.out i).regType) (p.out i).regId) = true :=
   C06S.regphase_correct p hy e M hw fuel e' h
 
